@@ -193,6 +193,16 @@ def c13_cases(tier):
     add('form/param-value-not-literal', ['#[enum_tools(as_str(mode = table))]'])
     add('form/param-value-const', ['#[enum_tools(as_str(name = NAME))]'])
     add('form/empty-list-twin', ['#[enum_tools()]'], 'accept')
+    # values that reach the attribute through a macro_rules fragment (wrapped in an invisible group)
+    def via_macro(cls, frag, arg, attr, expect):
+        n[0] += 1
+        body = ['macro_rules! mk { ($m:%s) => { #[derive(Clone, Copy, EnumTools)] #[enum_tools(%s)] #[repr(u8)] pub enum E { A, B, C } } }' % (frag, attr), 'mk!(%s);' % arg]
+        out.append(case('c13_%03d_macro' % n[0], 'C13', cls, body, expect, 'derive'))
+    via_macro('form/param-value-ident-via-expr-fragment', 'expr', 'table', 'iter(mode = $m)', 'reject')
+    via_macro('form/param-value-path-via-expr-fragment', 'expr', 'a::b', 'as_str(name = $m)', 'reject')
+    via_macro('form/param-value-call-via-expr-fragment', 'expr', 'f()', 'as_str(mode = $m)', 'reject')
+    via_macro('form/param-value-ident-via-tt-fragment', 'tt', 'table', 'iter(mode = $m)', 'reject')
+    via_macro('form/param-value-literal-via-tt-fragment/twin', 'tt', '"table"', 'iter(mode = $m)', 'accept')
     # variant level
     def var(cls, vattr, expect='reject', owner='derive'):
         n[0] += 1
@@ -213,7 +223,15 @@ def c13_cases(tier):
     var('two-entries-mixed', '#[enum_tools(rename = "x", other)]')
     var('feature-at-variant', '#[enum_tools(as_str)]')
     var('path-colons', '#[enum_tools(a::rename = "x")]')
+    # several enum_tools attributes on one variant: each must be validated on its own
+    var('second-attr-invalid-flag', '#[enum_tools(rename = "x")] #[enum_tools(skip)]')
+    var('second-attr-invalid-int', '#[enum_tools(rename = "x")] #[enum_tools(rename = 5)]')
+    var('second-attr-invalid-key', '#[enum_tools(rename = "x")] #[enum_tools(alias = "y")]')
+    var('second-attr-name-value', '#[enum_tools(rename = "x")] #[enum_tools = "y"]')
+    var('first-attr-invalid', '#[enum_tools(skip)] #[enum_tools(rename = "x")]')
+    var('invalid-between-foreign', '#[doc = "d"] #[enum_tools(rename = "x")] #[allow(unused)] #[enum_tools(other)]')
     var('twin', '#[enum_tools(rename = "x")]', 'accept')
+    var('twin-with-foreign-attrs', '#[doc = "d"] #[enum_tools(rename = "x")] #[allow(unused)]', 'accept')
     var('twin-empty-string', '#[enum_tools(rename = "")]', 'accept')
     return out
 
@@ -271,7 +289,7 @@ def render_batch(cases):
     for c in cases:
         start = len(lines) + 1
         lines.append('pub mod %s {' % c['id'])
-        lines += HDR
+        lines += (HDR[1:] if c.get('with_prelude') else HDR)    # tool attributes (#[rustfmt::skip]) need the tool prelude
         lines += ['    ' + l for l in c['body']]
         lines.append('}')
         for ln in range(start, len(lines) + 1):
